@@ -1,6 +1,6 @@
 from vf import Job
 TU = "c01_create.c"
-CREATE_REPL = ["myth_ensure_init/ensure_init_contract", "myth_make_context_empty/make_empty_contract", "myth_make_context_voidcall/make_voidcall_contract",
+CREATE_REPL = ["myth_ensure_init/ensure_init_contract", "myth_tls_tree_fini/tls_fini_c01_contract", "myth_make_context_empty/make_empty_contract", "myth_make_context_voidcall/make_voidcall_contract",
                "myth_queue_push/push_contract", "myth_entry_point_cleanup/cleanup_contract", "verif_suspend_resume/suspend_resume_contract"]
 CREATE_CALLS = ["get_new_myth_thread_struct_desc:verif_new_desc", "get_new_myth_thread_struct_stack:verif_new_stack"]
 JOBS = [
@@ -11,10 +11,10 @@ JOBS = [
       restrict_fp=["myth_create_1.function_pointer_call.1/verif_user_fn"],
       cbmc=["--unwind", "10", "--unwinding-assertions"],
       fuc=["myth_create_ex_body", "myth_create_1", "init_myth_thread_struct", "myth_tls_tree_init"], timeout=300),
-  Job("c01.entry_point", TU, "h_entry_point", replace=["myth_entry_point_cleanup/cleanup_contract"],
+  Job("c01.entry_point", TU, "h_entry_point", replace=["myth_entry_point_cleanup/cleanup_contract", "myth_tls_tree_fini/tls_fini_c01_contract"],
       restrict_fp=["myth_entry_point.function_pointer_call.1/verif_user_fn"], fuc=["myth_entry_point"], timeout=200),
-  Job("c01.exit", TU, "h_exit", replace=["myth_entry_point_cleanup/cleanup_contract"], fuc=["myth_exit_body"], timeout=200),
-  Job("c01.testcancel", TU, "h_testcancel", replace=["myth_entry_point_cleanup/cleanup_contract"], cbmc=["--unwind", "3"],
+  Job("c01.exit", TU, "h_exit", replace=["myth_entry_point_cleanup/cleanup_contract", "myth_tls_tree_fini/tls_fini_c01_contract"], fuc=["myth_exit_body"], timeout=200),
+  Job("c01.testcancel", TU, "h_testcancel", replace=["myth_entry_point_cleanup/cleanup_contract", "myth_tls_tree_fini/tls_fini_c01_contract"], cbmc=["--unwind", "3"],
       fuc=["myth_testcancel_body", "myth_is_canceled"], timeout=200,
       note="the record's spin lock is free in the harness (the real spin lock body runs; its loop does not iterate)"),
   Job("c01.join_1", TU, "h_join_1", replace=["free_myth_thread_struct_desc/free_desc_contract"], fuc=["myth_join_1"], timeout=200),
